@@ -146,8 +146,8 @@ func acceptingEdgesDeep(fn *ssa.Function, acc acceptFn, depth int) map[edge]bool
 		if call == nil {
 			continue
 		}
-		h := call.Common().StaticCallee()
-		if h == nil || h.Blocks == nil || h == fn || h.Pkg == nil || !(strings.HasPrefix(h.Pkg.Pkg.Path(), libPath)) {
+		h := directCallee(call)
+		if h == nil || h.Blocks == nil || h == fn || topOf(h).Pkg == nil || !(strings.HasPrefix(topOf(h).Pkg.Pkg.Path(), libPath)) {
 			continue
 		}
 		inner := acceptingEdgesDeep(h, acc, depth+1)
@@ -176,6 +176,8 @@ func acceptingEdgesDeep(fn *ssa.Function, acc acceptFn, depth int) map[edge]bool
 					known, good = true, false
 				} else if c3, _ := callOf(v); c3 != nil && (strings.HasPrefix(callee(c3), "errors.") || strings.HasPrefix(callee(c3), "fmt.Errorf") || strings.Contains(callee(c3), "pkg/errors")) {
 					known, good = true, false
+				} else if nonNilAt(v, hb) {
+					known, good = true, false // "if err != nil { return nil, err }"
 				}
 			}
 			if good {
@@ -617,7 +619,7 @@ func fnsDeep(fn *ssa.Function) []*ssa.Function {
 		for _, b := range out[i].Blocks {
 			for _, ins := range b.Instrs {
 				if ci, ok := ins.(ssa.CallInstruction); ok {
-					if h := ci.Common().StaticCallee(); h != nil && newHelpers[h] && !seen[h] && h.Blocks != nil {
+					if h := directCallee(ci); h != nil && newHelpers[h] && !seen[h] && h.Blocks != nil {
 						seen[h] = true
 						out = append(out, h)
 					}
@@ -910,4 +912,34 @@ func isParam(v ssa.Value, p *ssa.Parameter) bool {
 		}
 	}
 	return len(leaves(v)) > 0
+}
+
+// nonNilAt: block b lies behind the non-nil edge of a test of v against nil.
+func nonNilAt(v ssa.Value, b *ssa.BasicBlock) bool {
+	fn := b.Parent()
+	for _, tb := range fn.Blocks {
+		iff := lastIf(tb)
+		if iff == nil {
+			continue
+		}
+		cm, truth, ok := cmpOf(iff.Cond)
+		if !ok || (cm.op != token.EQL && cm.op != token.NEQ) || !(isNilConst(cm.x) || isNilConst(cm.y)) {
+			continue
+		}
+		subj := cm.x
+		if isNilConst(cm.x) {
+			subj = cm.y
+		}
+		if subj != v {
+			continue
+		}
+		nn := tb.Succs[1]
+		if (cm.op == token.NEQ) == truth {
+			nn = tb.Succs[0]
+		}
+		if len(nn.Preds) == 1 && (nn == b || nn.Dominates(b)) {
+			return true
+		}
+	}
+	return false
 }
